@@ -537,6 +537,19 @@ func (tt *TermTable) FPFromBV(a *Term, signed bool, to Sort) *Term {
 		}
 		return tt.FP64(f)
 	}
+	// normalise: the extension of a narrower integer converts like the integer itself
+	for {
+		if a.op == "sign_extend" && signed {
+			a = a.args[0]
+			continue
+		}
+		if a.op == "zero_extend" {
+			a = a.args[0]
+			signed = false
+			continue
+		}
+		break
+	}
 	op := "to_fp_unsigned"
 	if signed {
 		op = "to_fp_signed"
